@@ -730,6 +730,25 @@ def gen_chain(rng, maxlen=4, doc=None, wild=False):
     return ops
 
 
+def stagewise(ops):
+    """mirror of `Genshi.Tf.stagewise` (Model/TfLazy.lean): between two buffer() barriers no buffer is
+    written twice, or read by an injector and written -- the chains for which the stage-wise model is exact"""
+    w, r = set(), set()
+    for op in ops:
+        n = op[0]
+        if n == 'buffer':
+            w, r = set(), set()
+        elif n in ('copy', 'cut'):
+            if op[1] in w or op[1] in r:
+                return False
+            w.add(op[1])
+        elif n in INJECT and op[1][0] == 'buf':
+            if op[1][1] in w:
+                return False
+            r.add(op[1][1])
+    return True
+
+
 def admissible(ops):
     """the documented precondition of the nesting claim: after invert() the unselected
     remainder is marked as one selection per gap and cuts through elements, so a new
